@@ -18,7 +18,7 @@
    run.  Granularity: steps are atomic; below that the criterion "no conflicting unordered
    accesses" is the Go memory model's own definition of a data race.
    Not proved: the registry lockset (storage.go mutexes) — exercised by the race build only. *)
-From CV Require Import Base.Str Gen.Sites Model.Common Model.Action Model.Batch Proofs.Batch Proofs.RegistrySites.
+From CV Require Import Base.Str Gen.Sites Model.Common Model.Action Model.Batch Proofs.Batch Proofs.RegistrySites Proofs.GoSites.
 From CV Require Model.Registry Proofs.Registry.
 
 Theorem C09_two_members : forall val sched (a b : list (step val)) m,
@@ -66,18 +66,8 @@ Print Assumptions C09_merge_usage.
 
 (* the goroutine structure of the source today: one `go` statement in parallelize (batch.go) and
    the one in Timeout (C19); each Batch goroutine writes invokedActions[localIndex] only *)
-Definition audited_go_sites : list str := [
-  B [97;99;116;105;111;110;46;103;111;58;65;99;116;105;111;110;46;84;105;109;101;111;117;116;47;49;58;32;103;111];  (* action.go:Action.Timeout/1: go *)
-  B [97;99;116;105;111;110;46;103;111;58;65;99;116;105;111;110;46;84;105;109;101;111;117;116;47;49;58;32;109;97;107;101;40;99;104;97;110;32;115;116;114;105;110;103;44;32;49;41];  (* action.go:Action.Timeout/1: make(chan string, 1) *)
-  B [97;99;116;105;111;110;46;103;111;58;65;99;116;105;111;110;46;84;105;109;101;111;117;116;47;49;58;32;114;101;99;118;32;99;117;114;114;101;110;116;67;104;97;110;110;101;108];  (* action.go:Action.Timeout/1: recv currentChannel *)
-  B [97;99;116;105;111;110;46;103;111;58;65;99;116;105;111;110;46;84;105;109;101;111;117;116;47;49;58;32;114;101;99;118;32;116;105;109;101;46;65;102;116;101;114;40;100;41];  (* action.go:Action.Timeout/1: recv time.After(d) *)
-  B [97;99;116;105;111;110;46;103;111;58;65;99;116;105;111;110;46;84;105;109;101;111;117;116;47;49;58;32;115;101;108;101;99;116];  (* action.go:Action.Timeout/1: select *)
-  B [97;99;116;105;111;110;46;103;111;58;65;99;116;105;111;110;46;84;105;109;101;111;117;116;47;49;58;32;116;105;109;101;46;65;102;116;101;114];  (* action.go:Action.Timeout/1: time.After *)
-  B [97;99;116;105;111;110;46;103;111;58;65;99;116;105;111;110;46;84;105;109;101;111;117;116;47;50;58;32;115;101;110;100;32;99;117;114;114;101;110;116;67;104;97;110;110;101;108];  (* action.go:Action.Timeout/2: send currentChannel *)
-  B [98;97;116;99;104;46;103;111;58;112;97;114;97;108;108;101;108;105;122;101;47;48;58;32;103;111]   (* batch.go:parallelize/0: go *)
-].
 Theorem C09_goroutine_sites :
-  forallb (fun s => Model.Action.in_strs s audited_go_sites) go_stmt_sites = true.
+  forallb (fun s => Model.Action.in_strs s audited_go_stmt_sites) go_stmt_sites = true.
 Proof. vm_compute. reflexivity. Qed.
 Print Assumptions C09_goroutine_sites.
 
